@@ -273,6 +273,26 @@ def run(res, tier, seed):
         asts.append(mixed_formula(rng))
     for _ in range(120 if tier == "quick" else 1500):
         asts.append(collision_formula(rng)); res.count("collision_formulas")
+    for _ in range(120 if tier == "quick" else 1500):
+        # the configurator's Any / Xor (subclasses of the plog ones, with a `default` that must not change the truth function),
+        # alone and under a plog connective
+        cg = ConfigGen(random.Random(rng.getrandbits(64)))
+        if rng.random() < 0.4:
+            # the default names one of the alternatives that is a sub-proposition (by its id)
+            its = rng.sample(cg.items, min(len(cg.items), 4))
+            B = {"k": rng.choice(["All", "Any", "Xor"]), "ch": [cg.leaf(i) for i in its[1:3]], "id": rng.choice(["B", "pk1"])}
+            alts = [cg.leaf(its[0]), B] + ([cg.leaf(its[3])] if len(its) > 3 and rng.random() < 0.5 else [])
+            rng.shuffle(alts)
+            a = {"k": rng.choice(["CcAny", "CcXor"]), "ch": alts, "default": [B["id"]], "id": rng.choice([None, "R1"])}
+        else:
+            a = cg.simple()
+        if a["k"] not in ("CcAny", "CcXor"):
+            continue
+        if rng.random() < 0.4:
+            a = {"k": rng.choice(["Not", "Imply", "All"]), "ch": [a] if rng.random() < 0.5 else [a, cg.leaf(rng.choice(cg.items))], "id": None}
+            if a["k"] == "Not": a["ch"] = a["ch"][:1]
+            if a["k"] == "Imply" and len(a["ch"]) < 2: a["ch"].append(cg.leaf(rng.choice(cg.items)))
+        asts.append(a); res.count("configurator_choice_formulas")
     if tier != "quick":
         gram = small_grammar(2, ["a", "b", "c"])
         rng.shuffle(gram)
